@@ -588,7 +588,7 @@ func genCodecSrc(repo string) (string, error) {
 			b := src(fset, fd.Body)
 			guard := false
 			switch {
-			case strings.Contains(b, "if closed := sc.handleError(streamCtx, frame, err); closed { return } if buf.Len() >= before { return } sc.ctxManager.Next() continue }") &&
+			case strings.Contains(b, "if closed := sc.handleError(streamCtx, frame, err); closed { return } if buf.Len() >= before { sc.ctxManager.Next() return } sc.ctxManager.Next() continue }") &&
 				strings.Contains(b, "before := buf.Len() frame, err := sc.protocol.Decode(streamCtx, buf)"):
 				v, guard = true, true
 			case strings.Contains(b, "if closed := sc.handleError(streamCtx, frame, err); closed { return } sc.ctxManager.Next() continue }"):
